@@ -237,4 +237,115 @@ DetAlts(long) ==
 GenDetShapes(long) == <<
   [Shape("c14.multi", Desc(<<DetLeaf, ChanRoot, ChanOther>>), [DetCfg EXCEPT !.alts = DetAlts(long)]) EXCEPT !.root = "Root"],
   [Shape("c14.sorted", Desc(<<DetLeaf, ChanRoot, ChanOther>>), [DetCfg EXCEPT !.sort = TRUE, !.alts = DetAlts(long)]) EXCEPT !.root = "Leaf", !.run = "c14.sorted"] >>
+
+---------------------------------------------------------------------------
+\* C15: declaration order
+
+PermSeqs(s) == {[i \in DOMAIN s |-> s[p[i]]] : p \in Permutations(DOMAIN s)}
+
+\* protoc numbers oneof declarations by first appearance
+RECURSIVE FirstOneofs(_, _)
+FirstOneofs(fs, seen) ==
+  IF fs = <<>> THEN <<>>
+  ELSE IF Head(fs).oneof = "" \/ Head(fs).oneof \in seen THEN FirstOneofs(Tail(fs), seen)
+  ELSE <<Head(fs).oneof>> \o FirstOneofs(Tail(fs), seen \cup {Head(fs).oneof})
+Reordered(m, fs) == [m EXCEPT !.fields = fs, !.oneofs = FirstOneofs(fs, {})]
+
+SortRootFields == <<Fld("Zed", 1, "string"), InOneof(Fld("BranchC", 2, "int32"), "Zed"), InOneof(Fld("BranchD", 3, "string"), "Zed"),
+                    Fld("Alpha", 4, "int32"), InOneof(Fld("BranchA", 5, "string"), "Alpha"), InOneof(MsgF("BranchB", 6, "Leaf"), "Alpha"),
+                    NonNull(Embed(MsgF("Inner", 7, "Inner"))), Rep(Fld("Items", 8, "string"))>>
+\* oneof groups are named like fields on purpose: holders Zed2 / Alpha2 would sort differently than declared
+SortRoot == Msg("Root", <<Fld("Str", 1, "string"), InOneof(Fld("BranchC", 2, "int32"), "Grp2"), InOneof(Fld("BranchD", 3, "string"), "Grp2"),
+                          Fld("Alpha", 4, "int32"), InOneof(Fld("BranchA", 5, "string"), "Grp"), InOneof(MsgF("BranchB", 6, "Leaf"), "Grp"),
+                          NonNull(Embed(MsgF("Inner", 7, "Inner"))), Rep(Fld("Items", 8, "string"))>>, <<"Grp2", "Grp">>)
+SortInner == Msg("Inner", <<Fld("Zed", 1, "bool"), Fld("Flag", 2, "bool")>>, <<>>)
+SortOther == Msg("Other", <<Fld("Num", 1, "int32"), Fld("Flt", 2, "float")>>, <<>>)
+SortMsgs == <<Leaf, SortInner, SortRoot, SortOther>>
+SortCfg(sort) == [BaseCfg EXCEPT !.types = <<"Root", "Other", "Leaf">>, !.sort = sort]
+
+\* rotations + a reversal + swaps of the root's fields (thorough: more), all orders of the messages
+FieldOrders(long) ==
+  LET fs == SortRoot.fields
+      n == Len(fs)
+      rot(k) == [i \in 1..n |-> fs[((i + k - 1) % n) + 1]]
+      rev == [i \in 1..n |-> fs[n + 1 - i]]
+      swap(a, b) == [i \in 1..n |-> IF i = a THEN fs[b] ELSE IF i = b THEN fs[a] ELSE fs[i]]
+  IN <<rev, rot(1), rot(3), swap(2, 5), swap(1, 8)>> \o (IF long THEN <<rot(2), rot(4), rot(5), rot(6), rot(7), swap(2, 3), swap(5, 6), swap(3, 6), swap(4, 7)>> ELSE <<>>)
+
+MsgOrders == SetToSeq(PermSeqs(<<1, 2, 3, 4>>) \ {<<1, 2, 3, 4>>})
+WithRoot(fs) == <<Leaf, SortInner, Reordered(SortRoot, fs), SortOther>>
+Permuted(long) ==
+  [i \in DOMAIN FieldOrders(long) |-> WithRoot(FieldOrders(long)[i])]
+  \o [i \in 1..(IF long THEN Len(MsgOrders) ELSE 5) |-> [j \in 1..4 |-> SortMsgs[MsgOrders[i][j]]]]
+  \o <<[j \in 1..4 |-> WithRoot(FieldOrders(long)[1])[MsgOrders[7][j]]]>>
+
+SortAlts(long) == [i \in DOMAIN Permuted(long) |-> Alt("perm." \o ToString(i), "C15.sorted_bytes", <<>>, 0, Permuted(long)[i])]
+
+\* sort off: schema and behaviour of every permuted variant equal the base's (paired line by line)
+UnsortedShapes(long) ==
+  LET ps == Permuted(long)
+      mk(id, msgs, role, root) ==
+        [Shape("c15.u." \o id \o "." \o root, Desc(msgs), SortCfg(FALSE)) EXCEPT !.root = root, !.run = "c15.u." \o id, !.group = "c15.u",
+           !.gchecks = <<GCheck("schema", "C15", "C15.unsorted_schema")>>,
+           !.pair = [key |-> "c15.u." \o root, role |-> role, clause |-> "C15.unsorted_behaviour", prop |-> "C15", exclkey |-> ""]]
+  IN <<mk("0base", SortMsgs, "base", "Root"), mk("0base", SortMsgs, "base", "Other")>>
+     \o FlattenSeq([i \in DOMAIN ps |-> <<mk("1v" \o ToString(i), ps[i], "variant", "Root"), mk("1v" \o ToString(i), ps[i], "variant", "Other")>>])
+
+GenSortShapes(long) ==
+  <<[Shape("c15.sorted", Desc(SortMsgs), [SortCfg(TRUE) EXCEPT !.alts = SortAlts(long)]) EXCEPT !.root = "Root"]>> \o UnsortedShapes(long)
+
+---------------------------------------------------------------------------
+\* C13: separate target package.  Every shape whose generated code must qualify a type of the struct package
+\* (named casts, enums, oneof wrappers, embedded and nested messages, map values) once in the same package
+\* (base) and twice in a package of its own (variants: plain / with import_path_overrides)
+
+SepSel == <<ScalarShapes[8], ScalarShapes[6], ScalarShapes[10], ScalarShapes[13], ListShapes[4], MapShapes[3],
+            ObjShapes[1], ObjShapes[2], ObjShapes[4], ObjShapes[6], ObjShapes[7], OneofShapes[1], OneofShapes[2],
+            EmbedShapes[1], EmbedShapes[2], EmbedShapes[4], EmptyShapes[1], DeepShapes[1], PairShapes[2]>>
+
+SepTriple(sp) ==
+  LET pr(role) == [key |-> "c13." \o sp.id, role |-> role, clause |-> "C13.same_behaviour", prop |-> "C13", exclkey |-> ""]
+      mk(tag, cfg, role) == [sp EXCEPT !.id = "c13." \o sp.id \o "." \o tag, !.run = "c13." \o sp.id \o "." \o tag, !.cfg = cfg,
+                                       !.group = "c13." \o sp.id, !.pair = pr(role),
+                                       !.gchecks = <<GCheck("schema", "C13", "C13.same_behaviour")>>]
+  IN <<mk("0same", sp.cfg, "base"),
+       mk("1sep", [sp.cfg EXCEPT !.separate = TRUE], "variant"),
+       mk("2sepovr", [sp.cfg EXCEPT !.separate = TRUE, !.importoverride = TRUE], "variant")>>
+
+GenSepShapes == FlattenSeq([i \in DOMAIN SepSel |-> SepTriple(SepSel[i])])
+
+---------------------------------------------------------------------------
+\* C11: field-addressed options; a message type at several paths, also embedded below the root
+
+AddrLeaf == Msg("Leaf", <<Fld("Str", 1, "string"), Fld("Num", 2, "int32")>>, <<>>)
+AddrMid == Msg("Mid", <<MsgF("Sub", 1, "Leaf"), Fld("Flag", 2, "bool")>>, <<>>)
+AddrOuter == Msg("Outer", <<NonNull(Embed(MsgF("Leaf", 1, "Leaf"))), Fld("Kind", 2, "enum")>>, <<>>)
+AddrRoot == Msg("Root", <<Fld("Zed", 1, "string"), MsgF("Sub", 2, "Leaf"), MsgF("Sub2", 3, "Leaf"), Rep(MsgF("Subs", 4, "Leaf")),
+                          MapOf(MsgF("Dict", 5, "Leaf")), MsgF("Mid", 6, "Mid"), MsgF("Extra", 7, "Outer")>>, <<>>)
+AddrDesc == Desc(<<AddrLeaf, AddrMid, AddrOuter, AddrRoot>>)
+
+AddrKeys == <<"Root.Sub.Str", "Leaf.Str", "Root.Subs.Num", "Root.Dict.Str", "Root.Mid.Sub.Num", "Mid.Sub", "Root.Zed",
+              "Root.Extra.Str", "Root.Extra.Kind", "Outer.Kind", "Root.Sub2">>
+AddrOptions == <<"exclude", "required", "computed", "sensitive", "nameoverride", "validators", "planmodifiers">>
+
+AddrCfg(opt, key) ==
+  CASE opt = "exclude" -> [BaseCfg EXCEPT !.exclude = <<key>>]
+    [] opt = "required" -> [BaseCfg EXCEPT !.required = <<key>>]
+    [] opt = "computed" -> [BaseCfg EXCEPT !.computed = <<key>>, !.usfu = TRUE]
+    [] opt = "sensitive" -> [BaseCfg EXCEPT !.sensitive = <<key>>]
+    [] opt = "nameoverride" -> [BaseCfg EXCEPT !.nameoverrides = <<KV(key, "ovr_x")>>]
+    [] opt = "validators" -> [BaseCfg EXCEPT !.validators = <<[k |-> key, v |-> <<"1", "2">>]>>]
+    [] OTHER -> [BaseCfg EXCEPT !.planmodifiers = <<[k |-> key, v |-> <<"3">>]>>]
+
+GenAddrShapes ==
+  <<Shape("c11.base", AddrDesc, BaseCfg)>>
+  \o FlattenSeq([o \in DOMAIN AddrOptions |-> [k \in DOMAIN AddrKeys |->
+        Shape("c11." \o AddrOptions[o] \o "." \o ToString(k), AddrDesc, AddrCfg(AddrOptions[o], AddrKeys[k]))]])
+
+\* exclusion is surgical: the excluded variant behaves like the base on everything else (paired)
+ExclKeys == <<"Root.Sub.Str", "Leaf.Str", "Root.Subs.Num", "Root.Dict.Str", "Root.Mid.Sub.Num", "Mid.Sub", "Root.Zed", "Outer.Kind", "Root.Sub2">>
+GenExclShapes ==
+  LET pr(role, key) == [key |-> "c11x", role |-> role, clause |-> "C11.excl.rest_same", prop |-> "C11", exclkey |-> key]
+      mk(tag, cfg, role, key) == [Shape("c11x." \o tag, AddrDesc, cfg) EXCEPT !.group = "c11x", !.pair = pr(role, key)]
+  IN <<mk("0base", BaseCfg, "base", "")>> \o [k \in DOMAIN ExclKeys |-> mk("1x" \o ToString(k), AddrCfg("exclude", ExclKeys[k]), "variant", ExclKeys[k])]
 =============================================================================
